@@ -15,7 +15,7 @@ CLAIMED = {
             "Proof: every clause of the property is a Lean theorem over the conversion tables regenerated from the Rust source on each run (identity, linearity, 0.1% round trip, 0.1% physical factor, create_time/create_speed/create_energy definitions and rejection), for all magnitudes in any linearly ordered field. The constructors' code shape is guarded by the translator and their behaviour tied by a bit-exact differential run on every unit combination.",
             "§5 C09"),
     "C19": ("Lean 4 theorems over an executable model of CsvMapping / ResponseOutputFormat / WriteMode / ResponseSink (write_response = one atomic step) for every schedule of worker steps (induction over the schedule, multiset = List.Perm) + textual / multiset correspondence with the real sink driven by 1..16 real threads and with CompassApp::run end to end",
-            "Proof, partial in a stated sense. Proved for all responses, mappings, batch shapes and ALL schedules (any list of worker ids): the file is its opening contents followed by exactly one whole record per written response, the records of a completed batch are the multiset {record r}, the counter counts them, line count, both persistence policies leave the same file, header names the mapping's columns in the order the rows use (rev and sorted orientations), Append never repeats the header and keeps every earlier byte (repeated runs), a record holds no raw newline, write_never_loses_information (post-fix behaviour; full except for a response that already holds both error and csv_error - counterexample proved), JSON lines parse back (under the explicit assumption that serde_json reads what it wrote, which the harness checks by parsing every file back). Four defects of the code are modelled faithfully, proved as counterexamples and listed as known findings (array/object cells and JSON-escaped quotes break the CSV columns; csv_error replaced under a Combined policy; responses of queries failing input processing never reach the file). Trusted, not proved: the atomicity of one write_response rests on std::sync::Mutex and on OS append semantics; real thread interleavings are only sampled by the concurrent harness runs (1..16 threads, direct sink API and CompassApp::run on the rayon pool); multi-process appends and I/O errors are outside the model.",
+            "Proof, partial in a stated sense. Proved for all responses, mappings, batch shapes and ALL schedules (any list of worker ids): the file is its opening contents followed by exactly one whole record per written response, the records of a completed batch are the multiset {record r}, the counter counts them, line count, both persistence policies leave the same file, header names the mapping's columns in the order the rows use (rev and sorted orientations), Append never repeats the header and keeps every earlier byte (repeated runs), a record holds no raw newline, write_never_loses_information (post-fix behaviour; full except for a response that already holds both error and csv_error - counterexample proved), a JSON record parses back to the response that produced it and determines it (round trip parse(compact r) = r proved for the model's serializer and a reader written in Lean; that serde_json::from_str agrees with this reader is checked by a differential run and by parsing every real file back), what each worker hands back is, in queue order, the amended response (same vectors for every schedule), a Combined policy appends one record to every member. Four defects of the code are modelled faithfully, proved as counterexamples and listed as known findings (array/object cells and JSON-escaped quotes break the CSV columns; csv_error replaced under a Combined policy; responses of queries failing input processing never reach the file). Trusted, not proved: the atomicity of one write_response rests on std::sync::Mutex and on OS append semantics; real thread interleavings are only sampled by the concurrent harness runs (1..16 threads, direct sink API and CompassApp::run on the rayon pool); multi-process appends and I/O errors are outside the model.",
             "§5 C19"),
 }
 
